@@ -262,6 +262,10 @@ def run(ctx):
     scope.rule_lazy_inside_scope(ctx, "R7.8")
     scope.rule_no_parked_iterators(ctx, "R7.9")
     scope.rule_scope_entered(ctx, "R7.10")
+    # R7.11: a used validator and a fresh one resolve the same reference alike: nothing on the validation path consults the live
+    # registry (or a bundled copy) to make up for a failed retrieval -- what a resolver knows is what its store held at construction
+    from .c18 import rule_registry_read_only
+    rule_registry_read_only(ctx, "R7.11")
     # R7.7: store keys are URIs up to an empty fragment and nothing coarser: a coarser key serves the document retrieved for one
     # URI to a later reference to another (history dependence)
     from .c15 import rule_uridict
